@@ -37,13 +37,13 @@ var padPool = []string{"007", "08", "9", "10", "100", "0010", "000", "0", "8", "
 
 // genuine numbers written with 33-80 bytes: long integers, long fractions, zero-padded, with suffixes
 var longPool = []string{
-	"340282366920938463463374607431768211456",                 // 2^128 written out
-	"0.00000000000000000000000000000000001",                   // 1e-35
-	"100000000000000000000000000000000",                       // 1 and 32 zeros
-	"000000000000000000000000000000000007",                    // 7, 36 bytes
-	"1.00000000000000000000000000000000Y",                     // 1e24
-	"0000000000000000000000000000000000000000000000000000016", // 16, 55 bytes
-	"3.1415926535897932384626433832795028841971693993751058209749445923", // 66 bytes
+	"340282366920938463463374607431768211456",                                          // 2^128 written out
+	"0.00000000000000000000000000000000001",                                            // 1e-35
+	"100000000000000000000000000000000",                                                // 1 and 32 zeros
+	"000000000000000000000000000000000007",                                             // 7, 36 bytes
+	"1.00000000000000000000000000000000Y",                                              // 1e24
+	"0000000000000000000000000000000000000000000000000000016",                          // 16, 55 bytes
+	"3.1415926535897932384626433832795028841971693993751058209749445923",               // 66 bytes
 	"12345678901234567890123456789012345678901234567890123456789012345678901234567890", // 80 bytes
 	"0.000000000000000000000000000000000000000000000000000000000000000000000001k",
 	"00000000000000000000000000000001.5Ki", "7", "16", "1e35", "1e-35", "1Y", "NaN", "abc", "1e32", "3.14",
@@ -77,8 +77,9 @@ func pickValues(r *hx.Rand) []string {
 	case 6:
 		src = litPool
 	default:
-		src = append(append(append(append(append([]string(nil), pool...), prefixPool...), tiePool...), litPool...), padPool...), longPool...), ulpPool...)
+		src = append(append(append(append(append(append(append([]string(nil), pool...), prefixPool...), tiePool...), litPool...), padPool...), longPool...), ulpPool...)
 	}
+	preferNum = pad
 	nv := 2 + r.Intn(4)
 	if pad {
 		nv += 2 // enough values for a padded one, a shorter one and another spelling in between
@@ -92,9 +93,17 @@ func pickValues(r *hx.Rand) []string {
 
 var keyPool = []string{"a", "b", "/x", "/y", ".name", ".fullname", ".config", "a", "/x", ".config"}
 
+// preferNum is set by pickValues for the numeric value families (padded, long, ulp-neighbours): most
+// of their fields are then ordered @num.
+var preferNum bool
+
 func genSpec(r *hx.Rand, vals []string, dupOK bool) SpecT {
 	k := hx.Pick(r, keyPool)
 	s := SpecT{Key: k, Order: "first"}
+	if preferNum && r.Chance(2, 3) {
+		s.Order = "num"
+		return s
+	}
 	switch x := r.Intn(20); {
 	case x < 7:
 	case x < 11:
